@@ -879,13 +879,16 @@ impl StreamsState {
     /// Set the receive_window and returns whether the receive_window has been
     /// expanded or shrunk: true if expanded, false if shrunk.
     pub(crate) fn set_receive_window(&mut self, receive_window: VarInt) -> bool {
-        let receive_window = receive_window.into();
+        let receive_window: u64 = receive_window.into();
         let mut expanded = false;
         if receive_window > self.receive_window {
-            self.local_max_data = self
-                .local_max_data
-                .saturating_add(receive_window - self.receive_window);
-            expanded = true;
+            // Growth first cancels any debt left over from an earlier shrink; otherwise the
+            // limit already advertised plus the growth would exceed the new window.
+            let growth = receive_window - self.receive_window;
+            let repaid = growth.min(self.receive_window_shrink_debt);
+            self.receive_window_shrink_debt -= repaid;
+            self.local_max_data = self.local_max_data.saturating_add(growth - repaid);
+            expanded = growth > repaid;
         } else {
             let diff = self.receive_window - receive_window;
             self.receive_window_shrink_debt = self.receive_window_shrink_debt.saturating_add(diff);
